@@ -25,8 +25,10 @@ Definition dir_records (g : geom) (img : image) (fat : list N) (cluster : N)
     let bytes := flat_map (cluster_bytes g img) (fst x) in
     (chunks32 (S (Nat.div (length bytes) 32)) bytes, fst x, snd x).
 
-Fixpoint read_dir (fuel : nat) (g : geom) (img : image) (fat : list N)
-         (e : option dentry) (cluster : N) : node :=
+(* [budget] bounds the number of directories visited in total (a damaged volume can describe an
+   exponentially large "tree"); [anc] are the clusters of the ancestor directories (cycles) *)
+Fixpoint read_dir (fuel : nat) (budget : nat) (g : geom) (img : image) (fat : list N) (anc : list N)
+         (e : option dentry) (cluster : N) : node * nat :=
   let r := dir_records g img fat cluster in
   let recs := fst (fst r) in
   let dd := decode_dir recs 0 None 0 in
@@ -34,24 +36,34 @@ Fixpoint read_dir (fuel : nat) (g : geom) (img : image) (fat : list N)
   let dots := filter is_dot ents in
   let real := filter (fun d => negb (is_dot d)) ents in
   match fuel with
-  | O => NDir e dots [] (snd (fst r)) (CBad 3) (snd dd)
+  | O => (NDir e dots [] (snd (fst r)) (CBad 3) (snd dd), budget)
   | S f =>
-    let kids :=
-        map (fun d =>
-               if d_is_dir d then read_dir f g img fat (Some d) (d_cluster (g_bits g) d)
-               else
-                 let c := d_cluster (g_bits g) d in
-                 if (c =? 0) then NFile d [] [] CEnd
-                 else let x := chain g fat (S (N.to_nat (g_count g))) c in
-                      NFile d (firstn (N.to_nat (d_size d)) (flat_map (cluster_bytes g img) (fst x)))
-                            (fst x) (snd x)) real in
-    NDir e dots kids (snd (fst r)) (snd r) (snd dd)
+    let step (st : list node * nat) (d : dentry) : list node * nat :=
+        let acc := fst st in let b := snd st in
+        if d_is_dir d then
+          match b with
+          | O => (acc ++ [NDir (Some d) [] [] [] (CBad 3) 0], O)
+          | S b' =>
+            (* a directory that is its own ancestor (a cycle) is not descended into *)
+            if existsb (N.eqb (d_cluster (g_bits g) d)) (cluster :: anc)
+            then (acc ++ [NDir (Some d) [] [] [] (CBad 3) 0], b)
+            else let x := read_dir f b' g img fat (cluster :: anc) (Some d) (d_cluster (g_bits g) d) in
+                 (acc ++ [fst x], snd x)
+          end
+        else
+          let c := d_cluster (g_bits g) d in
+          if (c =? 0) then (acc ++ [NFile d [] [] CEnd], b)
+          else let x := chain g fat (S (N.to_nat (g_count g))) c in
+               (acc ++ [NFile d (firstn (N.to_nat (d_size d)) (flat_map (cluster_bytes g img) (fst x)))
+                              (fst x) (snd x)], b) in
+    let kids := fold_left step real ([], budget) in
+    (NDir e dots (fst kids) (snd (fst r)) (snd r) (snd dd), snd kids)
   end.
 
 Definition abs (img : image) : res (geom * node) :=
   do g <- geometry img;
   let fat := fat_copy g img 0 in
-  Ok (g, read_dir 40 g img fat None 0).
+  Ok (g, fst (read_dir 24 (64 + 2 * N.to_nat (g_count g)) g img fat [] None 0)).
 
 (* ---------------- structural check ---------------- *)
 (* problems are reported as (code, detail) pairs:
